@@ -120,6 +120,10 @@ type Msg struct {
 }
 
 type Schema struct {
+	// Dir: directory (and proto path component) of the generated package, default ID; NoEnum: do not
+	// declare the corpus enum E in this file (several files sharing one proto package).
+	Dir    string
+	NoEnum bool
 	// Imports: proto file paths this schema's file depends on (for Extern fields).
 	Imports []string
 	ID      string
@@ -204,7 +208,9 @@ func (s *Schema) ToFile(fileName string) *descriptorpb.FileDescriptorProto {
 	for _, v := range CorpusEnumValues {
 		ed.Value = append(ed.Value, &descriptorpb.EnumValueDescriptorProto{Name: proto.String(v.Name), Number: proto.Int32(v.Num)})
 	}
-	fd.EnumType = append(fd.EnumType, ed)
+	if !s.NoEnum {
+		fd.EnumType = append(fd.EnumType, ed)
+	}
 	typeName := func(i int) string { return "." + s.Package + "." + s.Msgs[i].Name }
 	_ = typeName
 	for _, m := range s.Msgs {
